@@ -279,6 +279,17 @@ def alpha_fast(p, c):
     return rep, f, h, m, s, off, dn, dn * 86400 + tod - off * 60, problem
 
 
+def sstr(o):
+    """str() for messages that never raises (a year outside the dumper's range makes str() raise)."""
+    try:
+        return str(o)
+    except Exception as e:  # noqa
+        try:
+            return "<unprintable %s: %r>" % (type(e).__name__, canon(o))
+        except Exception:
+            return "<unprintable>"
+
+
 def canon_point(p):
     """Exact key of a TimePoint: every slot, the zone by its slots; floats keep their type."""
     tz = p._time_zone
